@@ -1,0 +1,129 @@
+//go:build verif
+
+package argmapper
+
+// Verification-only hooks (build tag "verif"). Nothing here is compiled into
+// normal builds. They expose internal structures read-only so an external
+// harness can compare them with a formal model.
+
+import (
+	"reflect"
+
+	"github.com/hashicorp/go-argmapper/internal/graph"
+)
+
+// Aliases so that a harness outside this module can drive internal/graph.
+type (
+	VerifGraph     = graph.Graph
+	VerifVertexT   = graph.Vertex
+	VerifTopoOrder = graph.TopoOrder
+	VerifDFSFunc   = graph.DFSFunc
+)
+
+// VerifVertexID returns the hash code of a vertex.
+func VerifVertexID(v interface{}) interface{} { return graph.VertexID(v) }
+
+// VerifSetPopHook installs (or clears, with nil) the Dijkstra pop observer.
+func VerifSetPopHook(f func(v interface{})) { graph.VerifPopHook = f }
+
+// VerifVertex describes one vertex of a call graph.
+type VerifVertex struct {
+	Kind     string // root | value | arg | out | func
+	Name     string
+	Type     reflect.Type
+	Subtype  string
+	HasValue bool
+	Func     *Func
+}
+
+// VerifEdge is a weighted edge between two indices of VerifGraphDump.Vertices.
+type VerifEdge struct {
+	From, To, Weight int
+}
+
+// VerifGraphDump is the pruned call graph built for f with the given options.
+type VerifGraphDump struct {
+	Vertices []VerifVertex
+	Edges    []VerifEdge
+	Err      error
+}
+
+func verifDescribe(raw graph.Vertex) VerifVertex {
+	switch v := raw.(type) {
+	case *rootVertex:
+		return VerifVertex{Kind: "root"}
+	case *valueVertex:
+		return VerifVertex{Kind: "value", Name: v.Name, Type: v.Type, Subtype: v.Subtype, HasValue: v.Value.IsValid()}
+	case *typedArgVertex:
+		return VerifVertex{Kind: "arg", Name: v.Name, Type: v.Type, Subtype: v.Subtype, HasValue: v.Value.IsValid()}
+	case *typedOutputVertex:
+		return VerifVertex{Kind: "out", Name: v.Name, Type: v.Type, Subtype: v.Subtype, HasValue: v.Value.IsValid()}
+	case *funcVertex:
+		return VerifVertex{Kind: "func", Func: v.Func}
+	}
+	return VerifVertex{Kind: "unknown"}
+}
+
+// VerifCallGraph builds the call graph exactly as Call (or, with redefining,
+// Redefine) would and returns it in a structured form.
+func VerifCallGraph(f *Func, redefining bool, opts ...Arg) VerifGraphDump {
+	var dump VerifGraphDump
+	builder, err := f.argBuilder(opts...)
+	if err != nil {
+		dump.Err = err
+		return dump
+	}
+	builder.redefining = redefining
+
+	g, _, _, _, err := f.callGraph(builder)
+	dump.Err = err
+
+	out, _, hash := g.VerifAdjacency()
+	index := map[interface{}]int{}
+	for h, v := range hash {
+		index[h] = len(dump.Vertices)
+		dump.Vertices = append(dump.Vertices, verifDescribe(v))
+	}
+	for from, m := range out {
+		for to, w := range m {
+			fi, ok1 := index[from]
+			ti, ok2 := index[to]
+			if !ok1 || !ok2 {
+				fi, ti = -1, -1
+			}
+			dump.Edges = append(dump.Edges, VerifEdge{From: fi, To: ti, Weight: w})
+		}
+	}
+	return dump
+}
+
+// VerifBuilderDump is the state of the option builder after applying options.
+type VerifBuilderDump struct {
+	Named    map[string]reflect.Value
+	NamedSub map[string]map[string]reflect.Value
+	Typed    map[reflect.Type]reflect.Value
+	TypedSub map[reflect.Type]map[string]reflect.Value
+	Convs    []*Func
+	NumGens  int
+	Err      error
+}
+
+// VerifBuilder applies f's default options followed by opts, as Call does.
+func VerifBuilder(f *Func, opts ...Arg) VerifBuilderDump {
+	var b *argBuilder
+	var err error
+	if f != nil {
+		b, err = f.argBuilder(opts...)
+	} else {
+		b, err = newArgBuilder(opts...)
+	}
+	d := VerifBuilderDump{Err: err}
+	if b != nil {
+		d.Named, d.NamedSub, d.Typed, d.TypedSub = b.named, b.namedSub, b.typed, b.typedSub
+		d.Convs, d.NumGens = b.convs, len(b.convGens)
+	}
+	return d
+}
+
+// VerifOnce reports whether f is a run-once function.
+func VerifOnce(f *Func) bool { return f.once }
